@@ -165,6 +165,7 @@ class Obligation:
         self.replay = model_vals  # list of (name, value) nondet values in call order
         self.path = state.id
         self.reached = list(state.reached)
+        self.st = state           # (probe for work splitting: a path that dies here needs its own job)
 
 
 class Engine:
